@@ -271,6 +271,12 @@ func checkC01(c *Ctx) {
 
 // c01Mailboxes checks the rebuild of the destination list on the no-extension branch.
 func (c *Ctx) c01Mailboxes(deliver *ssa.Function, fMailboxes, fRecipMb *types.Var, shouldStore *ssa.Function) {
+	c.c01MailboxesAs("C01/FLOW/mailboxes", deliver, fMailboxes, fRecipMb, shouldStore)
+}
+
+// c01MailboxesAs reports under the given rule id (C05 claims the same clause as its store
+// decision rule).
+func (c *Ctx) c01MailboxesAs(rule string, deliver *ssa.Function, fMailboxes, fRecipMb *types.Var, shouldStore *ssa.Function) {
 	r, p := c.R, c.P
 	var recipients *ssa.Parameter
 	for _, prm := range deliver.Params {
@@ -438,6 +444,42 @@ func (c *Ctx) c01Mailboxes(deliver *ssa.Function, fMailboxes, fRecipMb *types.Va
 										probs = append(probs, "recip.Mailbox is appended at "+p.InstrPos(x)+" without recip.ShouldStore() being true for the same recipient: mail for a discard domain is stored")
 									} else {
 										okEl = true
+										// converse: the decision is taken for every ranged recipient and a
+										// positive decision always reaches the append
+										if hs := loopHeaders(ru.Block()); len(hs) > 0 {
+											header := hs[len(hs)-1]
+											for _, h := range hs {
+												if h.Dominates(header) {
+													continue
+												}
+												if header.Dominates(h) {
+													header = h
+												}
+											}
+											next := func(in ssa.Instruction) bool { return in.Block() == header && in == header.Instrs[0] }
+											var ssCall ssa.Instruction
+											eng.EachInstr(fnA, func(y ssa.Instruction) {
+												if call, ok := y.(*ssa.Call); ok && eng.StaticCallee(call.Common()) == shouldStore && call.Call.Args[0] == recip {
+													ssCall = y
+												}
+											})
+											if ssCall != nil {
+												if (&eng.Search{Target: next, Avoid: func(y ssa.Instruction) bool { return y == ssCall || y == ssa.Instruction(x) }}).After(ru) != nil {
+													probs = append(probs, "a ranged recipient can be passed over before recip.ShouldStore() is asked (path from "+p.InstrPos(ru)+" to the next iteration avoiding "+p.InstrPos(ssCall)+"): whether its mail is stored then depends on something other than its own domain's policy")
+												}
+												for _, b := range fnA.Blocks {
+													for k := 0; k < len(b.Succs) && len(b.Succs) == 2; k++ {
+														cv, pol, ok := eng.CondTruth(b, k)
+														if !ok || !pol || cv != ssa.Value(ssCall.(*ssa.Call)) {
+															continue
+														}
+														if (&eng.Search{Target: next, Avoid: func(y ssa.Instruction) bool { return y == ssa.Instruction(x) }}).FromBlockStart(b.Succs[k]) != nil {
+															probs = append(probs, "a recipient whose ShouldStore() is true can be left out of the destination list (path from the true edge at "+p.InstrPos(eng.IfOf(b))+" to the next iteration avoiding the append)")
+														}
+													}
+												}
+											}
+										}
 									}
 								}
 							}
@@ -454,12 +496,12 @@ func (c *Ctx) c01Mailboxes(deliver *ssa.Function, fMailboxes, fRecipMb *types.Va
 		walk(s.Store.Val, env{})
 		sort.Strings(probs)
 		if len(probs) > 0 {
-			r.Bad("C01/FLOW/mailboxes", "policy-branch", p.InstrPos(s.Store), "%s", strings.Join(probs, "; "))
+			r.Bad(rule, "policy-branch", p.InstrPos(s.Store), "%s", strings.Join(probs, "; "))
 		} else {
-			r.Ok("C01/FLOW/mailboxes", "policy-branch", p.InstrPos(s.Store), "Mailboxes = [recip.Mailbox for recip in recipients if recip.ShouldStore()], rebuilt from an emptied list")
+			r.Ok(rule, "policy-branch", p.InstrPos(s.Store), "Mailboxes = [recip.Mailbox for recip in recipients if recip.ShouldStore()], rebuilt from an emptied list")
 		}
 	}
-	r.Floor("C01/FLOW/mailboxes", "policy-branch stores of InboundMessage.Mailboxes", n, 1)
+	r.Floor(rule, "policy-branch stores of InboundMessage.Mailboxes", n, 1)
 }
 
 func (c *Ctx) c01Ack(m *smtpModel) {
